@@ -121,6 +121,10 @@ pub fn catalogue() -> Vec<Edge> {
         group(c, "g2", &["c", "d"]);
         c.arg_mut("a").unwrap().required_unless.push("g2".into());
     }));
+    e("c.required_unless_present(g1={a,b})".into(), Box::new(|c| {
+        group(c, "g1", &["a", "b"]);
+        c.arg_mut("c").unwrap().required_unless.push("g1".into());
+    }));
     e("d.requires(c)".into(), Box::new(|c| c.arg_mut("d").unwrap().requires.push("c".into())));
     e("d.conflicts_with(a)".into(), Box::new(|c| c.arg_mut("d").unwrap().conflicts.push("a".into())));
     e("d.required".into(), Box::new(|c| c.arg_mut("d").unwrap().required = true));
